@@ -248,3 +248,141 @@ Proof.
     unfold lst. destruct (nsd (nth i t 0)); [right; lia|].
     destruct Hl; [left; assumption|right; lia].
 Qed.
+
+(* ---- reading the text around a position ------------------------------------------------------------ *)
+Definition nonzero (e : list Z) : Prop := Forall (fun c => c <> 0) e.
+
+Lemma nth_at : forall (A : list Z) c Bx, nth (length A) (A ++ c :: Bx) 0 = c.
+Proof. intros. rewrite app_nth2 by lia. rewrite Nat.sub_diag. reflexivity. Qed.
+
+Lemma nth_next : forall (A : list Z) c Bx, nth (length A + 1) (A ++ c :: Bx) 0 = hd 0 Bx.
+Proof.
+  intros. rewrite app_nth2 by lia. replace (length A + 1 - length A)%nat with 1%nat by lia.
+  destruct Bx; reflexivity.
+Qed.
+
+Lemma nth_prev1 : forall (A' : list Z) y c Bx, nth (length (A' ++ [y]) - 1) ((A' ++ [y]) ++ c :: Bx) 0 = y.
+Proof.
+  intros. rewrite app_length. cbn [length]. replace (length A' + 1 - 1)%nat with (length A') by lia.
+  rewrite <- app_assoc. apply nth_at.
+Qed.
+
+Lemma fire_needs : forall t i L, fire t i L = true ->
+  (L < length t)%nat /\ (2 < i)%nat /\ nth (i - 2) t 0 = SEP /\ nth (i - 1) t 0 = DOT /\ nth i t 0 = DOT /\
+  (nth (i + 1) t 0 = 0 \/ nth (i + 1) t 0 = SEP).
+Proof.
+  intros t i L H. unfold fire in H.
+  apply andb_true_iff in H as [H H6]. apply andb_true_iff in H as [H H5]. apply andb_true_iff in H as [H H4].
+  apply andb_true_iff in H as [H H3]. apply andb_true_iff in H as [H1 H2].
+  apply orb_true_iff in H6. repeat split; lia.
+Qed.
+
+Lemma fire_at : forall A' x y c Bx L,
+  fire ((A' ++ [x; y]) ++ c :: Bx) (length (A' ++ [x; y])) L =
+  (L <? length ((A' ++ [x; y]) ++ c :: Bx))%nat && (1 <=? length A')%nat && (x =? SEP) && (y =? DOT) &&
+  (c =? DOT) && ((hd 0 Bx =? 0) || (hd 0 Bx =? SEP)).
+Proof.
+  intros. unfold fire. rewrite nth_at, nth_next.
+  assert (E1 : nth (length (A' ++ [x; y]) - 1) ((A' ++ [x; y]) ++ c :: Bx) 0 = y).
+  { replace (A' ++ [x; y]) with ((A' ++ [x]) ++ [y]) by (rewrite <- app_assoc; reflexivity). apply nth_prev1. }
+  assert (E2 : nth (length (A' ++ [x; y]) - 2) ((A' ++ [x; y]) ++ c :: Bx) 0 = x).
+  { rewrite app_length. cbn [length]. replace (length A' + 2 - 2)%nat with (length A') by lia.
+    rewrite <- app_assoc. apply nth_at. }
+  rewrite E1, E2.
+  replace (2 <? length (A' ++ [x; y]))%nat with (1 <=? length A')%nat
+    by (rewrite app_length; cbn [length]; lia). reflexivity.
+Qed.
+
+Lemma fire_small : forall t i L, (i <= 2)%nat -> fire t i L = false.
+Proof. intros. unfold fire. replace (2 <? i)%nat with false by lia. rewrite andb_false_r. reflexivity. Qed.
+
+(* ---- scanning one element (a maximal run of non-separator bytes) ------------------------------ *)
+Section ScanElem.
+  Variables pre post e : list Z.
+  Variables last next : nat.
+  Variable r : list Z.
+  Let T := pre ++ e ++ post.
+  Hypothesis Hsf : sepfree e.
+  Hypothesis Hnz : nonzero e.
+  Hypothesis Hne : e <> [].
+  Hypothesis Hpre : pre = [] \/ exists p', pre = p' ++ [SEP].
+  Hypothesis Hnext : pre = [] -> next = 0%nat.
+  Hypothesis Hpost : post = [] \/ exists q, post = SEP :: q.
+
+  Lemma scan_chars : forall e2 e1, e = e1 ++ e2 ->
+    ~ (e = DD /\ (last < length T)%nat /\ (2 <= length pre)%nat) ->
+    dd_res (length pre + length e) T (if existsb nsd e then length pre else last) (length pre) r ->
+    dd_res (length pre + length e1) T (if existsb nsd e1 then length pre else last)
+           (match e1 with [] => next | _ => length pre end) r.
+  Proof.
+    induction e2 as [|c e2' IH]; intros e1 He Hnf Hr.
+    - rewrite app_nil_r in He. subst e1. destruct e; [congruence|exact Hr].
+    - assert (ET : T = (pre ++ e1) ++ c :: (e2' ++ post)).
+      { unfold T. rewrite He. rewrite <- !app_assoc. reflexivity. }
+      assert (Ei : (length pre + length e1)%nat = length (pre ++ e1)) by (rewrite app_length; reflexivity).
+      assert (Hc : c <> SEP /\ c <> 0).
+      { unfold sepfree, nonzero in *. rewrite He in Hsf, Hnz. apply Forall_app in Hsf as [_ S2]. apply Forall_app in Hnz as [_ Z2].
+        inversion S2; inversion Z2; subst. split; assumption. }
+      assert (Hhd : e2' <> [] -> hd 0 (e2' ++ post) <> 0 /\ hd 0 (e2' ++ post) <> SEP).
+      { intro N. destruct e2' as [|c2 e3]; [congruence|]. cbn [app hd].
+        unfold sepfree, nonzero in *. rewrite He in Hsf, Hnz. apply Forall_app in Hsf as [_ S2]. apply Forall_app in Hnz as [_ Z2].
+        inversion S2; inversion Z2; subst. inversion H2; inversion H6; subst. split; assumption. }
+      apply dd_res_adv.
+      + rewrite Ei, ET. rewrite !app_length. cbn [length]. lia.
+      + (* no collapse inside the element *)
+        rewrite Ei, ET.
+        destruct e1 as [|y e1'] using rev_ind.
+        * rewrite app_nil_r. destruct Hpre as [-> | [p' ->]]; [apply fire_small; cbn; lia|].
+          destruct p' as [|z p''] using rev_ind; [apply fire_small; cbn; lia|].
+          replace ((p'' ++ [z]) ++ [SEP]) with (p'' ++ [z; SEP]) by (rewrite <- app_assoc; reflexivity).
+          rewrite fire_at.
+          replace (SEP =? DOT) with false by reflexivity. rewrite !andb_false_r. reflexivity.
+        * clear IHe1'. destruct e1' as [|x e1''] using rev_ind.
+          -- cbn [app]. destruct Hpre as [-> | [p' ->]]; [apply fire_small; cbn; lia|].
+             replace ((p' ++ [SEP]) ++ [y]) with (p' ++ [SEP; y]) by (rewrite <- app_assoc; reflexivity).
+             rewrite fire_at.
+             destruct ((y =? DOT) && (c =? DOT)) eqn:Edd.
+             ++ apply andb_true_iff in Edd as [Ey Ec]. apply Z.eqb_eq in Ey, Ec. subst y c.
+                destruct e2' as [|c2 e3].
+                ** (* the element is "..": excluded by the hypothesis *)
+                   cbn [app] in He. destruct ((last <? length ((p' ++ [SEP; DOT]) ++ DOT :: [] ++ post))%nat && (1 <=? length p')%nat) eqn:EL.
+                   --- exfalso. apply Hnf. apply andb_true_iff in EL as [L1 L2]. split; [exact He|]. split.
+                       +++ unfold T. rewrite He. apply Nat.ltb_lt in L1. rewrite !app_length in *. cbn [length app] in *. lia.
+                       +++ rewrite app_length. cbn [length]. apply Nat.leb_le in L2. lia.
+                   --- cbn [existsb nsd] in *. change (nsd DOT) with false. cbn [orb].
+                       apply andb_false_iff in EL as [L1 | L2]; [rewrite L1|rewrite L2, andb_false_r]; reflexivity.
+                ** destruct (Hhd ltac:(discriminate)) as [H0 HS]. cbn [app hd] in *.
+                   replace (c2 =? 0) with false by lia. replace (c2 =? SEP) with false by lia. rewrite !andb_false_r. reflexivity.
+             ++ destruct (y =? DOT); [|rewrite !andb_false_r; reflexivity]. cbn [andb] in Edd. rewrite Edd.
+                rewrite !andb_false_r. reflexivity.
+          -- clear IHe1''. replace (pre ++ (e1'' ++ [x]) ++ [y]) with ((pre ++ e1'') ++ [x; y])
+               by (rewrite <- !app_assoc; reflexivity).
+             rewrite fire_at.
+             assert (x <> SEP).
+             { unfold sepfree in Hsf. rewrite He in Hsf. rewrite Forall_app in Hsf. destruct Hsf as [S1 _].
+               rewrite Forall_app in S1. destruct S1 as [S1 _]. rewrite Forall_app in S1. destruct S1 as [_ S1].
+               inversion S1; assumption. }
+             replace (x =? SEP) with false by lia. rewrite !andb_false_r. reflexivity.
+      + (* the state after the byte *)
+        assert (En : nxt T (length pre + length e1) (match e1 with [] => next | _ => length pre end) = length pre).
+        { unfold nxt. rewrite Ei, ET. destruct e1 as [|y e1'] using rev_ind.
+          - rewrite app_nil_r. destruct Hpre as [-> | [p' ->]].
+            + cbn. apply Hnext. reflexivity.
+            + rewrite nth_prev1. rewrite Z.eqb_refl, andb_true_r.
+              replace (1 <=? length (p' ++ [SEP]))%nat with true by (rewrite app_length; cbn [length]; lia).
+              reflexivity.
+          - clear IHe1'. rewrite app_assoc. rewrite nth_prev1.
+            assert (y <> SEP).
+            { unfold sepfree in Hsf. rewrite He in Hsf. rewrite Forall_app in Hsf. destruct Hsf as [S1 _].
+              rewrite Forall_app in S1. destruct S1 as [_ S1]. inversion S1; assumption. }
+            replace (y =? SEP) with false by lia. rewrite andb_false_r.
+            destruct (e1' ++ [y]) eqn:E; [destruct e1'; discriminate|reflexivity]. }
+        assert (Ec : nth (length pre + length e1) T 0 = c) by (rewrite Ei, ET; apply nth_at).
+        unfold lst. rewrite En, Ec.
+        specialize (IH (e1 ++ [c])). rewrite <- app_assoc in IH. specialize (IH He Hnf Hr).
+        rewrite app_length in IH. cbn [length] in IH. replace (length pre + (length e1 + 1))%nat with (S (length pre + length e1)) in IH by lia.
+        rewrite existsb_app in IH. cbn [existsb] in IH. rewrite ?orb_false_r in IH.
+        destruct (e1 ++ [c]) eqn:E1c; [destruct e1; discriminate|]. cbv beta iota in IH.
+        destruct (existsb nsd e1), (nsd c); cbn [orb] in IH; exact IH.
+  Qed.
+End ScanElem.
